@@ -482,28 +482,34 @@ func Run(rep *report.Report, tier string) {
 	}
 	outcomes := map[string]int{}
 	var mu sync.Mutex
-	var wg sync.WaitGroup
-	ch := make(chan job)
-	for w := 0; w < 16; w++ {
-		wg.Add(1)
-		go func() {
-			defer wg.Done()
-			for j := range ch {
-				oc, fs := oneModify(j.pi, j.op, j.desc)
-				mu.Lock()
-				outcomes[strings.SplitN(oc, "/", 2)[0]]++
-				mu.Unlock()
-				for _, f := range fs {
-					rep.Violate(f.sig, f.what, map[string]any{"pre_state": preStates[j.pi].name, "mutation": j.desc, "operation": ribx.Text(j.op)})
+	// every job once per iteration order of the maps of the instrumented packages (ascending, descending): the
+	// verdict on a message must not depend on which member of a keyed list the code happens to look at first
+	for _, order := range []int{0, 1} {
+		rt.MapOrder = order
+		var wg sync.WaitGroup
+		ch := make(chan job)
+		for w := 0; w < 16; w++ {
+			wg.Add(1)
+			go func() {
+				defer wg.Done()
+				for j := range ch {
+					oc, fs := oneModify(j.pi, j.op, j.desc)
+					mu.Lock()
+					outcomes[strings.SplitN(oc, "/", 2)[0]]++
+					mu.Unlock()
+					for _, f := range fs {
+						rep.Violate(f.sig, f.what, map[string]any{"pre_state": preStates[j.pi].name, "mutation": j.desc, "operation": ribx.Text(j.op), "map_order": []string{"ascending", "descending"}[order]})
+					}
 				}
-			}
-		}()
+			}()
+		}
+		for _, j := range jobs {
+			ch <- j
+		}
+		close(ch)
+		wg.Wait()
 	}
-	for _, j := range jobs {
-		ch <- j
-	}
-	close(ch)
-	wg.Wait()
+	rt.MapOrder = 0
 	// Get and Flush requests: executed under the controlled runtime so that a panic in a server goroutine is a
 	// verdict instead of the death of the worker.
 	nReq := 0
@@ -545,7 +551,7 @@ func Run(rep *report.Report, tier string) {
 			}
 		}
 	}
-	total := len(jobs) + nReq
+	total := 2*len(jobs) + nReq
 	rep.Set("evaluations", total)
 	rep.Set("distinct_nontrivial", total)
 	rep.Set("states", total)
@@ -554,7 +560,7 @@ func Run(rep *report.Report, tier string) {
 	rep.Set("single_mutations", nSingles)
 	rep.Set("mutation_pairs", nPairs)
 	rep.Set("get_flush_requests", nReq)
-	rep.Set("rule", "mutation closure by protoreflect walk: every populated field and every unpopulated field of a populated message x operator set {clear/empty sub-message, other oneof arm, undefined/zero/last enum, boundary integers, bad strings, empty/long bytes, empty list, duplicated element}; each mutant x 3 pre-states (pairs: richest pre-state); all cases distinct by construction")
+	rep.Set("rule", "mutation closure by protoreflect walk: every populated field and every unpopulated field of a populated message x operator set {clear/empty sub-message, other oneof arm, undefined/zero/last enum, boundary integers, bad strings, empty/long bytes, empty list, duplicated element}; each mutant x 3 pre-states (pairs: richest pre-state) x 2 map iteration orders; all cases distinct by construction")
 	rep.Set("exhaustive", true)
 	rep.Set("distinct_outcomes", outcomes)
 	keys := make([]string, 0)
